@@ -325,15 +325,10 @@ func (w *World) TraceCount() int           { return w.traceN }
 // from the tape and never reads a real clock.
 func (w *World) Tracef(format string, a ...any) {
 	w.traceN++
-	if w.TraceOn {
-		s := fmt.Sprintf("t=%d ", w.Now) + fmt.Sprintf(format, a...)
-		if len(w.trace) < 4000 {
-			w.trace = append(w.trace, s)
-		}
-		w.hashStr(s)
-		return
+	if w.TraceOn && len(w.trace) < 4000 {
+		w.trace = append(w.trace, fmt.Sprintf("t=%d ", w.Now)+fmt.Sprintf(format, a...))
 	}
-	// cheap path: hash format and scalar args without formatting
+	// the hash is computed the same way whether or not the text is kept
 	w.hashStr(format)
 	w.hashU64(uint64(w.Now))
 	for _, x := range a {
